@@ -6,7 +6,7 @@ import numpy as np
 import core
 import gen
 
-PROOF_MODULES = ["UnytProofs.C03", "UnytProofs.C03History", "UnytProofs.C03Routes", "UnytProofs.C03Tab"]
+PROOF_MODULES = ["UnytProofs.C03", "UnytProofs.C03History", "UnytProofs.C03Routes", "UnytProofs.C03Tab", "UnytProofs.C03TabEm"]
 
 EPS = {"float64": 2.0 ** -52, "float32": 2.0 ** -23, "complex128": 2.0 ** -52, "int32": 2.0 ** -23, "int64": 2.0 ** -52}
 
